@@ -71,6 +71,21 @@ class Env:
         self.row = None
 
 
+def recover_row_facts(rows, seq, n, a, b, jt):
+    """what contract_recover_messages assumes about row j of the result (z3 terms): inside the range and journaled,
+    strictly ascending towards both neighbours.  Consequences of C13's recover.* clauses: task
+    refinement[recover_messages] (journal_refinement.recover_refinement)."""
+    inr = z3.And(jt >= 0, jt < n)
+    return [z3.Implies(inr, z3.And(seq(jt) >= a, seq(jt) <= b, z3.Select(rows, seq(jt)))),
+            z3.Implies(z3.And(inr, jt + 1 < n), seq(jt) < seq(jt + 1)),
+            z3.Implies(z3.And(inr, jt >= 1), seq(jt - 1) < seq(jt))]
+
+
+def recover_complete_fact(rows, seq, idx, n, a, b, k):
+    """... and about a journaled number k inside the range: it is one of the rows"""
+    return z3.Implies(z3.And(z3.Select(rows, k), k >= a, k <= b), z3.And(idx(k) >= 0, idx(k) < n, seq(idx(k)) == k))
+
+
 def contract_recover_messages(env):
     def c(I, args, kwargs):
         jr, session, direction, a, b = args
@@ -88,9 +103,8 @@ def contract_recover_messages(env):
         def use(j):
             jt = _t(j)
             inr = z3.And(jt >= 0, jt < n.t)
-            ctx.assume(SBool(z3.Implies(inr, z3.And(seq(jt) >= _t(a), seq(jt) <= _t(b), z3.Select(rows, seq(jt))))))
-            ctx.assume(SBool(z3.Implies(z3.And(inr, jt + 1 < n.t), seq(jt) < seq(jt + 1))))
-            ctx.assume(SBool(z3.Implies(z3.And(inr, jt >= 1), seq(jt - 1) < seq(jt))))
+            for fact in recover_row_facts(rows, seq, n.t, _t(a), _t(b), jt):
+                ctx.assume(SBool(fact))
             # pre-state invariant I3 at this row: a journaled number is below the next outbound number
             ctx.assume(SBool(z3.Implies(inr, seq(jt) < _t(env.cur))))
             if env.no_holes:
@@ -105,8 +119,7 @@ def contract_recover_messages(env):
         # completeness at the probe: a journaled number inside the range is one of the rows
         idx = z3.Function("row_idx", z3.IntSort(), z3.IntSort())
         k0 = env.k0
-        ctx.assume(SBool(z3.Implies(z3.And(z3.Select(rows, k0.t), k0.t >= _t(a), k0.t <= _t(b)),
-                                    z3.And(idx(k0.t) >= 0, idx(k0.t) < n.t, seq(idx(k0.t)) == k0.t))))
+        ctx.assume(SBool(recover_complete_fact(rows, seq, idx, n.t, _t(a), _t(b), k0.t)))
 
         def elem(j):
             use(j)
@@ -710,8 +723,9 @@ PROPERTY = Property(
         "Codec.decode(row) yields a message with tag 34 = k and the header tags 8/9/35/49/56/52/10 (rests on the "
         "encode/decode round trip, which C01 decides by a bounded stand-in only; a row that does not decode raises out of the loop)",
         "Journaler.recover_messages returns the session's OUTBOUND rows of [BeginSeqNo, EndSeqNo] ascending and distinct "
-        "(C13's recover.* clauses on the SQL body, task journal.recover_messages of this run; the link between those "
-        "clauses and contract_recover_messages is by reading); set_seq_num / persist_msg abstract contracts are "
+        "(what contract_recover_messages assumes - recover_row_facts / recover_complete_fact - follows from C13's "
+        "recover.* clauses, which are proved on the SQL body: tasks journal.recover_messages and "
+        "journal.refinement[recover_messages] of this run); set_seq_num / persist_msg abstract contracts are "
         "consequences of the clauses proved on the SQL bodies in this run (journal.* tasks with their refinement "
         "lemmas); Codec.encode's number choice on the real body in this run (callee.* tasks)",
         "should_replay is a pure hook (arbitrary boolean per row, no effect on connection / session / journal state); "
